@@ -220,6 +220,43 @@ theorem C18_new_fresh (S : Schema) (H H' : Heap) (c : Nat) (hi : Inv H)
     exact fresh_of_create t c root hi hroot
   · simp at hs
 
+/-- **C18_copy_confined.**  Assigning to a FIX segment of instance `b` an object READ from instance `a` (a group container
+    with nested groups, a scalar, …) writes only to cells of `b` and to new cells tagged `b`; no cell of `a` (or of anybody
+    else) is written or becomes reachable from `b`: afterwards every reference still stays inside its owner (`Inv`), so the
+    two instances share no address, and by `C18_frame` no later operation about one of them changes the other. -/
+theorem C18_copy_confined (S : Schema) (H H' : Heap) (b : Nat) (pb : List Step) (k : Key) (a : Nat) (pa : List Step)
+    (hi : Inv H) (hsafe : classSafe S H (.copy b pb k a pa) = true)
+    (hs : step S H (.copy b pb k a pa) = .ok H') :
+    Ext (· = Owner.inst b) H.cells H'.cells ∧ Inv H' ∧ H'.insts = H.insts := by
+  obtain ⟨hext, hinv, hins⟩ := step_sound hi hs hsafe
+  refine ⟨hext, hinv, ?_⟩
+  rcases hins with h | ⟨cr, _, htgt⟩
+  · exact h
+  · exfalso
+    simp only [Op.target] at htgt
+    -- a successful copy resolved a target inside instance `b`, so `b` exists
+    simp only [step] at hs
+    obtain ⟨ro, hr, hs⟩ := bind_ok hs
+    cases ro with
+    | none => simp at hs
+    | some r =>
+      have := (mutTarget_owned hi hr).1
+      omega
+
+/-- **C18_clone_fresh.**  A message built from `from_value` copies of another message's segments consists of new cells only. -/
+theorem C18_clone_fresh (S : Schema) (H H' : Heap) (a : Nat) (hi : Inv H)
+    (hs : step S H (.clone a) = .ok H') : FreshInstance H H' := by
+  simp only [step] at hs
+  obtain ⟨cr, _, hs⟩ := bind_ok hs
+  split at hs
+  · obtain ⟨t, _, hs⟩ := bind_ok hs
+    split at hs
+    · rename_i root hroot
+      injection hs with hs; subst hs
+      exact fresh_of_create t cr.1 root hi hroot
+    · simp at hs
+  · simp at hs
+
 /-- **C18_buffer_independent.**  After decoding, overwriting the buffer changes what nobody reads (instance of
     `C18_observe_pure_partial`, stated for the exact scenario of the property). -/
 theorem C18_buffer_independent_partial (S : Schema) (ops : List Op) (c buf : Nat)
@@ -396,5 +433,28 @@ example : encodeInst exFresh (run exFresh init exFreshOps) 0 = .ok [65, 0, 0, 0,
 example : encodeInst exFresh (run exFresh init exFreshOps) 2 = .ok [65, 0, 0, 0, 0, 5, 0, 0, 0, 0] := by decide
 /-- while the model of the code as it is shows the defect on the same history -/
 example : encodeInst exSchema (run exSchema init exFreshOps) 2 = .error .other := by decide
+
+/-- FIX with a nested repeating group: group 0 (delimiter 601) inside group 1 (delimiter 701, nested 600); instance 1 gets
+    the container READ from instance 0, then the nested group is changed through instance 0 only -/
+def exNested : Schema :=
+  ⟨true, [.fixSeg true [.field 601 .int],
+    .fixSeg true [.field 701 .int, .group 600 0],
+    .fixSeg false [.field 8 .str],
+    .fixSeg false [.field 10 .int],
+    .fixSeg false [.group 700 1],
+    .fixMsg 2 4 3]⟩
+
+def exCopyOps : List Op :=
+  [.new 5, .new 5,
+   .assign 0 [.fld 1] 700 (.list [.obj 1 [701, 600] [.int 1, .list [.obj 0 [601] [.int 5]]]]),
+   .copy 1 [.fld 1] 700 0 [.fld 1, .fld 700],
+   .assign 0 [.fld 1, .fld 700, .idx 0, .fld 600, .idx 0] 601 (.int 9)]
+
+example : encodeInst exNested (run exNested init (exCopyOps.take 4)) 1
+    = .ok [55,48,48,61,49,1, 55,48,49,61,49,1, 54,48,48,61,49,1, 54,48,49,61,53,1] := by decide
+example : encodeInst exNested (run exNested init exCopyOps) 1
+    = .ok [55,48,48,61,49,1, 55,48,49,61,49,1, 54,48,48,61,49,1, 54,48,49,61,53,1] := by decide
+example : encodeInst exNested (run exNested init exCopyOps) 0
+    = .ok [55,48,48,61,49,1, 55,48,49,61,49,1, 54,48,48,61,49,1, 54,48,49,61,57,1] := by decide
 
 end NasdaqModel.Props.C18
